@@ -47,6 +47,10 @@ class HS(dict):
     __hash__ = object.__hash__
     def __eq__(s, o): return s is o
     def __ne__(s, o): return s is not o
+    def __getattr__(s, name):
+        # the trusted standard-library functions (operator.attrgetter, getattr) read a sample's fields like attributes
+        try: return s["." + name]
+        except KeyError: raise AttributeError(name)
 class MM(dict):
     """sample meta-model: subscript / `in` by rule name, iteration over the classes (as TextXMetaModel does)"""
     def __iter__(s): return iter(list(dict.values(s)))
